@@ -36,6 +36,7 @@ import (
 	"github.com/ollama/ollama/fs/ggml"
 	"github.com/ollama/ollama/llm"
 	"github.com/ollama/ollama/verifsim"
+	"github.com/ollama/ollama/verifsim/vfs"
 )
 
 // ---- templates ---------------------------------------------------------------------------
@@ -421,6 +422,10 @@ func newAPIWorld(t *testing.T, sim *verifsim.Sim, prop string, gpu apiGPU, maxRu
 		panic(err)
 	}
 	os.Setenv("OLLAMA_MODELS", w.dir)
+	if verifsim.RaceBuild {
+		// H-apirace is built with the vfs seam: file-system calls below the store are pre-emption points
+		vfs.Ctl = &vfs.Control{Roots: []string{w.dir}, CrashAt: -1}
+	}
 	apiSetenvOrUnset("OLLAMA_MAX_LOADED_MODELS", maxRunners)
 	apiSetenvOrUnset("OLLAMA_NUM_PARALLEL", numParallel)
 	os.Setenv("OLLAMA_MAX_QUEUE", strconv.Itoa(maxQueue))
@@ -615,6 +620,7 @@ func (w *apiWorld) teardown() {
 	w.sim.OnStep = nil
 	w.sim.RunUntil(nil, 2*time.Second, 3000)
 	http.DefaultTransport = w.oldTrans
+	vfs.Ctl = nil
 	gin.DefaultErrorWriter = os.Stderr
 	os.RemoveAll(w.dir)
 }
